@@ -344,6 +344,33 @@ PROPS["C12"] = dict(
     level_note="IPv6 is covered for the answering half (solicitation -> advertisement); the waiting/failure half is exercised over ARP",
 )
 
+PROPS["C07"] = dict(
+    engine="netsim", level="exploration",
+    quick=dict(runs=16000, workers=16, stall_s=120),
+    thorough=dict(budget_s=900, workers=16, stall_s=300, variants=["", "", "", "fragenum"]),
+    rule="one evaluation = one seeded barrage of 50-400 (thorough: up to 2000) frames against a victim stack with a TCP listener, an established TCP "
+         "connection holding unread data and unacknowledged data, a bound dual-stack and a connected UDP socket, IPv4+IPv6+ARP on a link that requires "
+         "resolution, delivered as one view or in the fd-based 128/256/... scatter: structure-aware mutations of frames a peer could legitimately send "
+         "(truncation at every header boundary +-1, bit flips, version/IHL/total-length/fragment/data-offset/option-length/UDP-length/next-header fields "
+         "set to 0, 1, max, actual+-1, contradictory flags, garbage tails), sequences of three fragments from the grid offset {0,8,16,24,65528} x length "
+         "{0,8,16,24} x MF {0,1} (sampled in quick; in the thorough tier one worker in four enumerates all 64000), longer random fragment sequences "
+         "over several ids with clock jumps across the 30 s timeout, ICMP errors quoting truncated inner headers, and noise; then the serve probe. "
+         "non-trivial = at least one mutated frame or fragment triple was injected; distinct = distinct event-log hash",
+    expected_probes=["mutated_frames", "fragment_triples", "random_fragment_sequences", "noise_frames", "served_after_barrage"],
+    real=NET_REAL, stubs=NET_STUBS + PEER_STUB, assumptions=NET_ASSUME + [
+        "received segments are not checksum-verified by this stack, so a hostile in-window segment legitimately injects bytes into or resets the "
+        "pre-existing connection: nothing is asserted about its content, it only must not crash or hang anything",
+        "the real fd-based link endpoint (Ethernet framing, runt frames, read errors through the rawfile seam) is not part of this check yet"],
+    hang_is_violation=True,
+    level_text="seeded search over hostile inbound histories (the fragment grid is enumerated completely in the thorough tier): the worker must not die "
+               "(a panic on the delivering goroutine is caught in-process and minimised; one in a stack goroutine kills the worker, which the runner "
+               "confirms by re-running the seed alone), must not hang (watchdog in the runner), and afterwards an echo request is answered, a new "
+               "three-way handshake to the listener completes with a byte flowing each way, and a datagram to the bound socket is read back intact; "
+               "evidence, not proof",
+    level_note="with one P and no time-slice pre-emption a spinning stack goroutine stops the whole worker; the runner's watchdog (no progress marker for "
+               "stall_s seconds) kills it and re-runs that seed alone",
+)
+
 PENDING = "check not built yet (work in progress; will be claimed once its simulation exists)"
 NOT_APPLICABLE = {
     "C15": "pure functions of their input (header codecs, RFC 1071 checksum): no schedule, clock, fault, I/O or second party for a simulator to control; "
